@@ -132,6 +132,11 @@ func (p *Program) axiomTerms(x *Exec) []*T {
 	clrw := term.App(fBand, w, term.Sub(term.I(-1), one))
 	out = append(out, term.ForallPat([]*T{w, sb, tb}, term.Imp(rng, term.Eq(bit(setw, tb), term.Or(term.Eq(sb, tb), bit(w, tb)))), [][]*T{{term.App(fShr, setw, tb)}}))
 	out = append(out, term.ForallPat([]*T{w, sb, tb}, term.Imp(rng, term.Eq(bit(clrw, tb), term.And(term.Ne(sb, tb), bit(w, tb)))), [][]*T{{term.App(fShr, clrw, tb)}}))
+	// byte extraction: bit t of ((w >> s) & 0xFF) is bit s+t of w
+	rng2 := term.And(term.Le(term.I(0), sb), term.Le(sb, term.I(24)), term.Le(term.I(0), tb), term.Le(tb, term.I(7)),
+		term.Le(term.I(-(1<<31)), w), term.Le(w, term.I(1<<31-1)))
+	byteOf := term.EMod(term.App(fShr, w, sb), term.I(256))
+	out = append(out, term.ForallPat([]*T{w, sb, tb}, term.Imp(rng2, term.Eq(bit(byteOf, tb), bit(w, term.Add(sb, tb)))), [][]*T{{term.App(fShr, byteOf, tb)}}))
 	out = append(out, term.ForallPat([]*T{sb}, term.Eq(term.App(fShr, term.I(0), sb), term.I(0)), [][]*T{{term.App(fShr, term.I(0), sb)}}))
 	out = append(out, term.ForallPat([]*T{sb}, term.Eq(term.App(fShl, term.I(0), sb), term.I(0)), [][]*T{{term.App(fShl, term.I(0), sb)}}))
 	p.axioms = out
